@@ -33,7 +33,7 @@ def epsilon_closure(N: NFA, q: Union[State, Set[State]]) -> Set[State]:
     todo: Set[State] = result.copy()
     while todo:
         q = todo.pop()
-        Q1: Set[State] = N.delta[q, N.epsilon] - result
+        Q1: Set[State] = N.delta.get((q, N.epsilon), set()) - result
         result = result | Q1
         todo = todo | Q1
     return result
@@ -192,7 +192,7 @@ def nfa_to_dfa(N: NFA) -> DFA:
         for a in Sigma:
             Q2 = set([])
             for q1 in Q1:
-                Q2 |= N.delta[q1, a]
+                Q2 |= N.delta.get((q1, a), set())
             Q2 = epsilon_closure(N, Q2)
             stateQ2 = state(Q2)
             delta[stateQ1, a] = stateQ2
